@@ -74,3 +74,28 @@ Proof.
   apply (first_fit_spec symbols _ s W) in FF. destruct FF as (_ & _ & MIN).
   apply MIN; [exact Hin|]. pose proof (greedy_optimal items IO) as GO. rewrite ID in GO. unfold g, cost in *. lia.
 Qed.
+
+(* C13 for the ASCII-only configuration: no codeword of the data part of the stream is a latch *)
+Local Open Scope N_scope.
+Lemma ascii_items_no_latch items : forallb aitem_ok items = true ->
+  Forall (fun c => ~ In c [230; 231; 238; 239; 240]) (flat_map aitem_cw items).
+Proof.
+  induction items as [|i r IH]; intros OK; [constructor|]. cbn [forallb] in OK. apply andb_true_iff in OK. destruct OK as [Oi Or].
+  cbn [flat_map]. apply Forall_app. split; [|apply IH; exact Or].
+  destruct i as [b|d1 d2|b]; cbn [aitem_ok aitem_cw] in *.
+  - apply N.ltb_lt in Oi. constructor; [|constructor]. cbn [In]. lia.
+  - unfold is_dig in Oi. rewrite !andb_true_iff, !N.leb_le in Oi. constructor; [|constructor]. cbn [In]. lia.
+  - rewrite andb_true_iff, N.leb_le, N.ltb_lt in Oi. constructor; [cbn [In]; lia|]. constructor; [|constructor]. cbn [In]. lia.
+Qed.
+
+Theorem ascii_only_no_latch sorter data symbols cw s :
+  (forall k l l', sorter symbols k l = Ok l' -> incl l' l) -> bytes_ok data = true ->
+  encode_data_internal (optimize_fn sorter) data symbols None 1 false false = Ok (cw, s) ->
+  exists stream_part npad, cw = stream_part ++ pad (N.of_nat (length stream_part)) npad /\
+    Forall (fun c => ~ In c [230; 231; 238; 239; 240]) stream_part.
+Proof.
+  intros HS OK H. destruct (ascii_only_roundtrip sorter data symbols cw s HS OK H) as [(npad & SO & CW) _].
+  exists (flat_map aitem_cw (greedy data)), npad. split.
+  - rewrite CW. unfold stream. cbn [render segment_cw]. cbv zeta. rewrite app_nil_r. reflexivity.
+  - apply ascii_items_no_latch. apply (greedy_ok data OK).
+Qed.
